@@ -299,6 +299,11 @@ Property Section::createProperty(const std::string &name, const std::vector<Vari
     if (backend()->hasProperty(name)) {
         throw DuplicateName("hasProperty");
     }
+    for (const Variant &v : values) {
+        if (v.type() != values[0].type()) {
+            throw std::invalid_argument("Inconsistent DataTypes!");
+        }
+    }
     return backend()->createProperty(name, values);
 }
 
